@@ -17,6 +17,14 @@
 (* overlay and p_flags 0..7 (-l); symbol type, binding, visibility, other    *)
 (* bits and section index (-s); dynamic tags incl. DT_FLAGS / DT_FLAGS_1     *)
 (* bits (-d).                                                                *)
+(*                                                                         *)
+(* The structures behind the tables (version chains, notes, dynamic         *)
+(* objects, symbol and relocation tables, attribute sections, line          *)
+(* programs, call-frame sections, entry trees) are not generated here: the  *)
+(* cross-writer sweep feeds the images of the other properties' writers to  *)
+(* both tools (ReadelfEnvelopeV.tla: loadable rendering of the Versions     *)
+(* writer; ReadelfEnvelope.tla: ELF container of the DWARF-level writers'   *)
+(* section contents; vf/c18_writers.py: sources, envelope predicates).      *)
 (***************************************************************************)
 EXTENDS Elf, Json, CSV, IOUtils
 
